@@ -13,7 +13,7 @@ from .threads_common import run_clients
 
 NAME = "T8"
 PROPERTY = "C08"
-RUNS = {"quick": 160, "thorough": 6000}
+RUNS = {"quick": 64, "thorough": 6000}
 RUN_WALL_CAP = 90.0
 REQUIRED_PROBES = {"quick": ["same_size_games_in_two_clients", "interleaved_calls_compared"], "thorough": ["same_size_games_in_two_clients", "interleaved_calls_compared"]}
 COMPONENTS = {"real": ["toqito.nonlocal_games.XORGame value methods called from 2..3 real threads (own objects each)", "cvxpy + SCS/Clarabel (never pre-empted)"], "stub": ["thread scheduling: baton passing, pre-emption at every Python line of toqito code, decided by the choice source"]}
